@@ -389,22 +389,89 @@ def WF (ctx : Ctx) (d : List Item) : Bool := wfItems ctx false [] d
 
 /-! ### the fragment covered by the proofs (see PylxProofs/C02.lean) -/
 
-/-- no specials string of the context starts with a text character (letter, digit, `.` `,` `;` `:`) -/
-def keysCore (keys : List Str) : Bool := keys.all (fun k => !headIs isTextChar k)
+/-- characters no specials string of a covered context starts with: text characters, `*`, `[`, `]` -/
+def isKeyFree (c : Char) : Bool := isTextChar c || c == '*' || c == '[' || c == ']'
 
-/-- the core fragment of derivations: text (letters, digits, inert punctuation), brace groups, comments ending in a
-    newline (plus indentation), arbitrary nesting -/
-def coreItems : List Item → Bool
+/-- no specials string of the context starts with a text character (letter, digit, `.` `,` `;` `:`), `*`, `[` or `]` -/
+def keysCore (keys : List Str) : Bool := keys.all (fun k => !headIs isKeyFree k)
+
+/-- `\begin` / `\end` as the tokenizer sees them: the word followed by something that is not a letter -/
+def isEnvWord (r : Str) : Bool :=
+  (("begin".toList).isPrefixOf r && !headIs isAsciiAlpha (r.drop 5)) ||
+  (("end".toList).isPrefixOf r && !headIs isAsciiAlpha (r.drop 3))
+
+/-- what follows an absent optional argument (leading whitespace dropped) is something the tokenizer reads without
+    an error: anything but a lone backslash, `\begin`, `\end` -/
+def escSafe : Str → Bool
+  | '\\' :: r => !r.isEmpty && !isEnvWord r
+  | _ => true
+
+def absentFollowOk (follow : Str) : Bool :=
+  decide (countNl (follow.takeWhile isPySpace) < 2) && escSafe (follow.dropWhile isPySpace)
+
+mutual
+/-- the covered fragment of derivations; `after` is the whole source text that follows the list (not only the closing
+    delimiter of the enclosing construct as in `wfItems`; the conditions that look ahead only inspect its first
+    characters): text (letters, digits, inert punctuation), whitespace with fewer than two newlines, brace groups,
+    comments ending in a newline (plus indentation), calls of control-word macros whose signature is made of
+    `m` / `o` / `s` slots written as brace groups / bracket groups / stars or left out, the four kinds of math, specials
+    without arguments; arbitrary nesting -/
+def coreItems (ctx : Ctx) (inMath : Bool) (after : Str) : List Item → Bool
   | [] => true
-  | .T t :: tl => !t.isEmpty && t.all isTextChar && coreItems tl
-  | .G b :: tl => coreItems b && coreItems tl
+  | .T t :: tl => !t.isEmpty && t.all isTextChar && coreItems ctx inMath after tl
+  | .W w :: tl =>
+    !w.isEmpty && isWs w && decide (countNl w < 2) && !headIs isPySpace (unparseItems tl ++ after) &&
+    coreItems ctx inMath after tl
+  | .G b :: tl => coreItems ctx inMath ('}' :: (unparseItems tl ++ after)) b && coreItems ctx inMath after tl
   | .C text tail :: tl =>
-    !text.contains '\n' && tail.head? == some '\n' && isWs tail && decide (countNl tail < 2) && coreItems tl
+    !text.contains '\n' && tail.head? == some '\n' && isWs tail && decide (countNl tail < 2) &&
+    (match tl with
+     | .W w :: _ => decide (countNl w = 0)
+     | _ => !headIs isPySpace (unparseItems tl ++ after)) &&
+    coreItems ctx inMath after tl
+  | .M name post args :: tl =>
+    let rest := unparseItems tl ++ after
+    let written := unparseArgs args ++ rest
+    isControlWord name && name != "begin".toList && name != "end".toList &&
+    isWs post && decide (countNl post < 2) &&
+    !headIs isAsciiAlpha (post ++ written) && !headIs isPySpace written &&
+    (match ctx.macroSpec name with
+     | some (.std sig) => coreArgs ctx inMath rest sig args
+     | _ => false) &&
+    coreItems ctx inMath after tl
+  | .F k b :: tl =>
+    !inMath && coreItems ctx true (k.closer ++ (unparseItems tl ++ after)) b &&
+    (k != .dollar || !isWs (unparseItems b)) &&
+    coreItems ctx inMath after tl
+  | .S name args :: tl =>
+    args.isEmpty && headIs specialsHeadOk name &&
+    testSpecials (ctxKeys ctx) (name ++ (unparseItems tl ++ after)) 0 == some name &&
+    (match lookupFirst name ctx.specials with
+     | some (.std sig) => sig.isEmpty
+     | _ => false) &&
+    coreItems ctx inMath after tl
   | _ :: _ => false
+/-- one written value per declared slot: `m` as a brace group, `o` as a bracket group or absent, `s` as a star or
+    absent; `rest` = the whole source after the call -/
+def coreArgs (ctx : Ctx) (inMath : Bool) (rest : Str) : List ArgSpec → List ArgVal → Bool
+  | [], [] => true
+  | sp :: sig, .absent :: tl =>
+    (match sp.kind with | .o _ => true | .s => true | _ => false) &&
+    absentOk sp.kind (unparseArgs tl ++ rest) && absentFollowOk (unparseArgs tl ++ rest) &&
+    coreArgs ctx inMath rest sig tl
+  | sp :: sig, .star :: tl => sp.kind == .s && coreArgs ctx inMath rest sig tl
+  | sp :: sig, .br b :: tl =>
+    (match sp.kind with | .o _ => true | _ => false) &&
+    coreItems ctx (deltaMath inMath sp.delta) (']' :: (unparseArgs tl ++ rest)) b && coreArgs ctx inMath rest sig tl
+  | sp :: sig, .grp b :: tl =>
+    sp.kind == .m && coreItems ctx (deltaMath inMath sp.delta) ('}' :: (unparseArgs tl ++ rest)) b &&
+    coreArgs ctx inMath rest sig tl
+  | _, _ => false
+end
 
 /-- **the fragment for which the round trip is proved**: a condition on the context (no specials string starts
-    with a text character) and on the derivation -/
-def Core (ctx : Ctx) (d : List Item) : Bool := keysCore (ctxKeys ctx) && coreItems d
+    with a text character, `*`, `[` or `]`) and on the derivation -/
+def Core (ctx : Ctx) (d : List Item) : Bool := keysCore (ctxKeys ctx) && coreItems ctx false [] d
 
 /-! ### canonical text of shapes (mirrored by harness/docwire.py: `canon`) -/
 
